@@ -44,6 +44,7 @@ class ThreadRun:
         self.reps_done = 0
         self.contended = 0
         self.passed: dict[int, bool] = {}
+        self.reqno = [0] * self.n
         self.req_while_busy = 0
         self.stop = False
         self.barrier = threading.Barrier(self.n, action=self._sample)
@@ -74,7 +75,7 @@ class ThreadRun:
                 # readers that asked earlier and are still parked (naming)
                 self.passed[tid] = any(
                     self.state[t] == 'waiting' and self.kind[t] == 'R' and
-                    self.rep_of[t] == rep
+                    self.rep_of[t] == rep and self.reqno[t] < self.reqno[tid]
                     for t in range(self.n) if t != tid)
             self.log.append((rep, 'enter', tid, kind))
             if kind == 'W' and writers:
@@ -117,6 +118,7 @@ class ThreadRun:
             with self.wl:
                 self.kind[tid] = kind
                 self.state[tid] = 'waiting'
+                self.reqno[tid] = len(self.log)
                 if self.inside[rep]:
                     self.req_while_busy += 1
                 self.log.append((rep, 'req', tid, kind))
@@ -250,6 +252,7 @@ def script_reader_passes_queued_reader() -> tuple[dict[str, Any] | None,
         with run.wl:
             run.kind[tid] = 'R'
             run.state[tid] = 'waiting'
+            run.reqno[tid] = len(run.log)
             run.log.append((0, 'req', tid, 'R'))
         async with lock.read_lock():
             run.enter(0, tid, 'R')
